@@ -1,5 +1,5 @@
 (* C13 — Batches are invalidated only when they can no longer execute.  Statements only. *)
-From V Require Import Base.Prelude Base.Val Num.Arith Hub.Types Hub.Model Proofs.ListX Proofs.HubInv Proofs.C13Proofs Hub.Votes Hub.VotesMon Hub.VotesHeight Proofs.C13Height.
+From V Require Import Base.Prelude Base.Val Num.Arith Hub.Types Hub.Model Proofs.ListX Proofs.HubInv Proofs.C13Proofs Hub.Votes Hub.VotesMon Hub.VotesHeight Proofs.C13Height Gen.SrcFactsSol Ext.Hub2Sol Proofs.C08Proofs Proofs.C13Contract.
 Local Open Scope Z_scope.
 
 (* BeginBlocker's timeout sweep of a chain, from any state satisfying the structural invariant
@@ -50,3 +50,14 @@ Theorem C13_height_unchanged_without_application :
   forall s o h, vs_applied (hs_votes (fst (hstep s o h))) = vs_applied (hs_votes s) -> hs_observed (fst (hstep s o h)) = hs_observed s.
 Proof. exact height_unchanged_without_application. Qed.
 Print Assumptions C13_height_unchanged_without_application.
+
+(* "can no longer execute", against the contract model of C08 (interpreted from the current Hub2.sol): a batch that the
+   timeout sweep withdraws is rejected by submitBatch at every block at or after the height the hub has observed --
+   whatever signer set, signatures, nonce and funds are presented. *)
+Theorem C13_withdrawn_batch_is_dead_on_the_contract :
+  forall s chain x sol trs bnonce quals mode exec,
+    Inv s -> In x (st_batches s) -> ~ In x (st_batches (cleanup_timed_out s chain)) ->
+    members_nonneg sol -> Z.of_N (agetd 0%N chain (st_obs_ext_h s)) <= exec ->
+    snd (submit_batch sol trs bnonce (Z.of_N (b_timeout x)) quals mode exec) = false.
+Proof. exact withdrawn_batch_is_dead_on_the_contract. Qed.
+Print Assumptions C13_withdrawn_batch_is_dead_on_the_contract.
